@@ -165,6 +165,7 @@ def check(ctx):
         ctx.count('grid:' + spec[0])
         # lock-step with the Lean model (same machinery as C07)
         c07.run_case(ctx, case, rng, lines, posts)
+    c07.long_stream(ctx, lines, posts)      # ranks beyond 2^15 / 2^16 / 2^17, lock-step at those points
     c07.compare_lockstep(ctx, lines, posts)
     grid_cases(ctx)
     convergence_probe(ctx)
